@@ -7,6 +7,7 @@ import (
 	"fmt"
 	"os"
 	"testing"
+	"time"
 )
 
 type vCase struct {
@@ -14,6 +15,8 @@ type vCase struct {
 	Vector   []vVecEntry `json:"vector"`
 	Realtime bool        `json:"realtime"`
 	Tier     int         `json:"tier"`
+	Hang     bool        `json:"hang"`
+	Skip     bool        `json:"skip"`
 }
 
 type vOut struct {
@@ -32,6 +35,7 @@ func vRunCase(c vCase) (out vOut) {
 	vVec, vPos, vObs, vCovers = c.Vector, 0, nil, nil
 	vRealtime = c.Realtime
 	vTier = c.Tier
+	vHeldRanks, vMainGoid, vNoBlockMsg = nil, vGoid(), ""
 	defer func() {
 		out.Obs, out.Covers = vObs, vCovers
 		if r := recover(); r != nil {
@@ -73,9 +77,30 @@ func TestVerifReplay(t *testing.T) {
 	}
 	defer f.Close()
 	for i, c := range cases {
-		o := vRunCase(c)
+		if c.Skip {
+			continue
+		}
+		// every case runs under a watchdog: a harness that never returns is reported as
+		// "hang" (expected only for counterexamples of the must-not-block obligations);
+		// nothing else runs in this process afterwards
+		limit := 120 * time.Second
+		if c.Hang {
+			limit = 5 * time.Second
+		}
+		done := make(chan vOut, 1)
+		go func() { done <- vRunCase(c) }()
+		var o vOut
+		hung := false
+		select {
+		case o = <-done:
+		case <-time.After(limit):
+			o, hung = vOut{Outcome: "hang", Msg: vNoBlockMsg}, true
+		}
 		o.Idx = i
 		line, _ := json.Marshal(o)
 		f.Write(append(line, '\n'))
+		if hung {
+			break
+		}
 	}
 }
